@@ -149,12 +149,9 @@ def find (w : World) (p : Nat) (name : NameKey) : FindRes := findFunction w w.fu
 
 /-! ### visibility -/
 
-/-- function_visible (origin, func_flags) -/
-def functionVisible (origin flags : Nat) : Bool :=
-  if origin == originLocal || origin == originDriver || origin == originCallOut then true
-  else if origin == originCallOther then
-    !(hasBit flags (nameStatic ||| namePrivate ||| nameProtected))
-  else true
+/-- function_visible (origin, func_flags): the decision itself is REGENERATED from the clang AST of the C function
+    on every run (`NV.Gen.C07.functionVisibleGen`); the theorems below are stated over it -/
+def functionVisible (origin flags : Nat) : Bool := functionVisibleGen origin flags
 
 /-! ### the apply cache and apply_low -/
 
@@ -323,6 +320,8 @@ def execBody (w : World) (obProg : Nat) : Nat → Frame → List Int → List Ev
         | some old =>
           let evs := Ev.run P.name fe.nameStr old :: evs
           let vars := vars.set vi (codeOf P.name fe.nameStr)
+          -- programs with a second own variable (`private int w;`, the same name at several levels) store there too
+          let vars := if P.nvd ≥ 2 then vars.set (vi + 1) (codeOf P.name fe.nameStr + 5000) else vars
           execOps w obProg fuel fr fe.ops vars evs
 
 def execOps (w : World) (obProg : Nat) : Nat → Frame → List CallOp → List Int → List Ev → Run
